@@ -43,11 +43,14 @@ impl private::Statistic for FuLi {
         let a = harmonic(n as u64);
         let g = p_harmonic(n as u64, 2);
 
-        let c_num = 2.0 * n as f64 * a - ((4 * (n - 1)) as f64);
-        let c_denom = ((n - 1) * (n - 2)) as f64;
+        // Float arithmetic throughout: for too few samples (n < 3) the statistic is undefined
+        // and comes out as NaN, rather than underflowing the unsigned subtractions
+        let nf = n as f64;
+        let c_num = 2.0 * nf * a - 4.0 * (nf - 1.0);
+        let c_denom = (nf - 1.0) * (nf - 2.0);
         let c = c_num / c_denom;
 
-        let v = 1.0 + a.powi(2) / (g + a.powi(2)) * (c - ((n + 1) as f64 / (n - 1) as f64));
+        let v = 1.0 + a.powi(2) / (g + a.powi(2)) * (c - ((nf + 1.0) / (nf - 1.0)));
         let u = a - 1.0 - v;
 
         (u * s + v * s.powi(2)).sqrt() / a
@@ -69,11 +72,14 @@ impl private::Statistic for Tajima {
         let a1 = harmonic(n as u64);
         let a2 = p_harmonic(n as u64, 2);
 
-        let b1 = (n + 1) as f64 / (3 * (n - 1)) as f64;
-        let b2 = (2 * (n.pow(2) + n + 3)) as f64 / (9 * n * (n - 1)) as f64;
+        // Float arithmetic throughout: for too few samples (n < 2) the statistic is undefined
+        // and comes out as NaN, rather than underflowing the unsigned subtractions
+        let nf = n as f64;
+        let b1 = (nf + 1.0) / (3.0 * (nf - 1.0));
+        let b2 = (2.0 * (nf.powi(2) + nf + 3.0)) / (9.0 * nf * (nf - 1.0));
 
         let c1 = b1 - 1.0 / a1;
-        let c2 = b2 - (n + 2) as f64 / (a1 * n as f64) + a2 / a1.powi(2);
+        let c2 = b2 - (nf + 2.0) / (a1 * nf) + a2 / a1.powi(2);
 
         let e1 = c1 / a1;
         let e2 = c2 / (a1.powi(2) + a2);
